@@ -3,6 +3,8 @@ import GomlVerif.Lemmas.PipeMonoSim
 import GomlVerif.Props.C08
 import GomlVerif.Props.C09
 import GomlVerif.Props.Dce
+import GomlVerif.Props.GoCompile
+import GomlVerif.Lemmas.PipeBack
 /-!
 Pipeline composition: adapters between the shapes of the per-pass theorems.
 
@@ -133,5 +135,45 @@ theorem back_half {P A : Prog} (hP : Reproduces P A) (compile : Prog → GFile)
   refine ⟨⟨m1, e1⟩, ?_⟩
   obtain ⟨m2, hm2⟩ := hdce m1 eager (by rw [e1]; exact hdef)
   exact ⟨m2, by rw [hm2, e1]⟩
+
+end Goml.Pipeline
+
+/-! ### the back end link (`GoCompileProps.compile_preserves_run`, worker gocomp) -/
+namespace Goml.Pipeline
+open Goml Goml.Sem Goml.Go
+
+theorem backStages_spec {i : E2EIn} {b : BackStages} (h : backStages i = some b) :
+    stages i.pipe = some b.mid ∧ annotFile b.mid.anf.fns = some b.afile ∧
+    b.gensym = (Anf.anfFns b.mid.lift.fns b.mid.gensym).2 ∧
+    b.pre = (GoCompile.goFilePreSt i.goenv b.afile b.gensym).1 ∧
+    b.ok = (GoCompile.goFilePreSt i.goenv b.afile b.gensym).2.ok ∧
+    b.emitted = Dce.eliminateDeadVars b.pre := by
+  unfold backStages at h
+  split at h
+  · cases h
+  · rename_i s hs
+    split at h
+    · cases h
+    · rename_i file hf
+      simp only [Option.some.injEq] at h
+      subst h
+      exact ⟨hs, hf, rfl, rfl, rfl, rfl⟩
+
+/-- `compile_preserves_run` instantiated at the composite's own ANF program: `CompileSim` holds
+    for the ANF program of every input whose back half lies in `fragGo` -/
+theorem compileSim_of_fragGo {i : E2EIn} {b : BackStages} (h : backStages i = some b) (hf : fragGo i b = true) :
+    CompileSim (fun _ => b.pre) b.mid.anf := by
+  obtain ⟨_, hann, _, hpre, _, _⟩ := backStages_spec h
+  unfold fragGo at hf
+  simp only [Bool.and_eq_true, List.any_eq_true, beq_iff_eq, List.isEmpty_iff, List.contains_iff_mem] at hf
+  obtain ⟨⟨hclosed, hmainG⟩, f, hfmem, hname, hps⟩ := hf
+  intro fuel eager hdef
+  rw [hpre]
+  exact GoCompileProps.compile_preserves_run i.goenv b.afile b.gensym _ hclosed f hfmem hname hps hmainG
+    b.mid.anf (annotFile_toFn _ _ hann).symm fuel eager hdef
+
+/-- `DceFileSim` is now a theorem for every file inside the DCE contract (`Dce.dce_file_preserves`) -/
+theorem dceFileSim_of_ok (G : GFile) (hok : Dce.fileDceOK G = true) : DceFileSim G :=
+  fun fuel eager hdef => Dce.dce_file_preserves G hok fuel eager 0 hdef
 
 end Goml.Pipeline
